@@ -38,6 +38,32 @@ func isByteSlice(t types.Type) bool {
 	return ok && (b.Kind() == types.Uint8 || b.Kind() == types.Byte)
 }
 
+func isSlice(t types.Type) bool {
+	_, ok := t.Underlying().(*types.Slice)
+	return ok
+}
+
+// "[T]" for a slice of T that is not a byte slice
+func elemTag(t types.Type) string {
+	return "[" + types.TypeString(t.Underlying().(*types.Slice).Elem(), shortQual) + "]"
+}
+
+// v if it is slice-typed (a slice header being stored), else nil
+func sliceVal(v ssa.Value) ssa.Value {
+	if isSlice(v.Type()) {
+		return v
+	}
+	return nil
+}
+
+// v if it is a slice whose elements are slices (copy of slice headers), else nil
+func elemSliceVal(v ssa.Value) ssa.Value {
+	if sl, ok := v.Type().Underlying().(*types.Slice); ok && isSlice(sl.Elem()) {
+		return v
+	}
+	return nil
+}
+
 func calleeName(c *ssa.CallCommon) string {
 	if c.IsInvoke() {
 		return "(" + types.TypeString(c.Value.Type(), shortQual) + ")." + c.Method.Name()
@@ -297,13 +323,22 @@ func genWrites(pkgs []*packages.Package, by map[string]*packages.Package, out st
 		}
 		return -1
 	}
-	scan := func(f *ssa.Function, emit func(kind string, v ssa.Value)) {
+	scan := func(f *ssa.Function, emit func(kind string, v ssa.Value, src ssa.Value)) {
 		for _, b := range f.Blocks {
 			for _, in := range b.Instrs {
 				switch x := in.(type) {
 				case *ssa.Store:
 					if ia, ok := x.Addr.(*ssa.IndexAddr); ok && isByteSlice(ia.X.Type()) {
-						emit("store", ia.X)
+						emit("store", ia.X, nil)
+					} else if ok && isSlice(ia.X.Type()) {
+						emit("store"+elemTag(ia.X.Type()), ia.X, sliceVal(x.Val))
+					} else if fa, isF := x.Addr.(*ssa.FieldAddr); isF && isSlice(x.Val.Type()) {
+						// a slice header stored into a field of the debugger snapshot type
+						st := fa.X.Type().Underlying().(*types.Pointer).Elem()
+						if types.TypeString(st, shortQual) == "interpreter.State" {
+							fld := st.Underlying().(*types.Struct).Field(fa.Field)
+							emit("setfield[State."+fld.Name()+"]", fa.X, x.Val)
+						}
 					}
 				case ssa.CallInstruction:
 					c := x.Common()
@@ -311,11 +346,15 @@ func genWrites(pkgs []*packages.Package, by map[string]*packages.Package, out st
 					switch name {
 					case "builtin.copy":
 						if isByteSlice(c.Args[0].Type()) {
-							emit("copy", c.Args[0])
+							emit("copy", c.Args[0], nil)
+						} else if isSlice(c.Args[0].Type()) {
+							emit("copy"+elemTag(c.Args[0].Type()), c.Args[0], elemSliceVal(c.Args[1]))
 						}
 					case "builtin.append":
 						if isByteSlice(c.Args[0].Type()) {
-							emit("append", c.Args[0])
+							emit("append", c.Args[0], nil)
+						} else if isSlice(c.Args[0].Type()) {
+							emit("append"+elemTag(c.Args[0].Type()), c.Args[0], nil)
 						}
 					default:
 						callee := c.StaticCallee()
@@ -327,10 +366,10 @@ func genWrites(pkgs []*packages.Package, by map[string]*packages.Package, out st
 							}
 							if samePkg {
 								if writesParam[callee][i] {
-									emit(fmt.Sprintf("callwrite:%s#%d", name, i), a)
+									emit(fmt.Sprintf("callwrite:%s#%d", name, i), a, nil)
 								}
 							} else if !strings.HasPrefix(name, "builtin.") {
-								emit("extcall:"+name, a)
+								emit("extcall:"+name, a, nil)
 							}
 						}
 					}
@@ -341,7 +380,7 @@ func genWrites(pkgs []*packages.Package, by map[string]*packages.Package, out st
 	for changed := true; changed; {
 		changed = false
 		for _, f := range fns {
-			scan(f, func(kind string, v ssa.Value) {
+			scan(f, func(kind string, v ssa.Value, _ ssa.Value) {
 				if strings.HasPrefix(kind, "extcall:") {
 					return
 				}
@@ -365,8 +404,14 @@ func genWrites(pkgs []*packages.Package, by map[string]*packages.Package, out st
 	// pass 2: rows
 	var rows []writeRow
 	for _, f := range fns {
-		scan(f, func(kind string, v ssa.Value) {
+		scan(f, func(kind string, v ssa.Value, src ssa.Value) {
 			or := originOf(v)
+			if src != nil {
+				// the value stored is itself a slice (a stack item, a parsed script): where does it come from?
+				for _, c := range originOf(src) {
+					or = append(or, "src:"+c)
+				}
+			}
 			if strings.HasPrefix(kind, "extcall:") && allFresh(or) {
 				return // a freshly allocated buffer handed to another package: nothing shared can be written
 			}
